@@ -166,36 +166,32 @@ def replay_one(c, binp):
         print("replay file carries no re-runnable input:", json.dumps(rp)[:1000])
 
 
-def binding_selftest(c, binp):
-    """S6: a recorded trace is accepted by Trace_PathHeader; corrupting one logged field or dropping one
-    event makes TLC reject it.  (If the current code does not follow the I-spec the self-test is skipped
-    with a DRIFT line: it needs a conforming trace.)"""
-    ev = os.path.join(c.work, "self.ndjson")
-    rc, so = c.sh([binp, "record", ev, os.path.join(c.work, "self.json"), "c11"], env={"VERIF_RUNS": 12})
-    if rc != 0:
-        c.fail_tool("binding self-test: record failed rc=%s" % rc)
-    lines = [json.loads(l) for l in open(ev)]
+def binding_selftest(c, ev):
+    """S6: the recorded trace `ev` was accepted by Trace_PathHeader; corrupting one logged field or
+    dropping one event of (a prefix of) it must make TLC reject it."""
+    lines = []
+    for l in open(ev):
+        lines.append(json.loads(l))
+        if len(lines) >= 400 and lines[-1].get("ev") == "reset":
+            lines.pop()
+            break
     idx = [i for i, e in enumerate(lines) if e.get("ev") == "op" and e["op"] == "egr" and e["res"]["k"] == "ok"
            and i + 1 < len(lines) and lines[i + 1].get("ev") == "op"]
     if not idx:
-        c.drift("binding self-test skipped: no successful advance_egress followed by another call was recorded")
+        c.drift("binding self-test skipped: no successful advance_egress followed by another call in the recorded prefix")
         return
     i = idx[len(idx) // 2]
     cor = [json.loads(json.dumps(e)) for e in lines]
     cor[i]["after"]["ch"] = (cor[i]["after"]["ch"] + 1) % 64
-    variants = {"orig": lines, "corrupt-field": cor, "drop-event": lines[:i] + lines[i + 1:]}
+    variants = {"corrupt-field": cor, "drop-event": lines[:i] + lines[i + 1:]}
     for name, ls in variants.items():
         pth = os.path.join(c.work, "self_%s.ndjson" % name)
         write_ndjson(pth, ls)
         r = c.tlc(SD, "Trace_PathHeader", mode="trace", env={"TRACE": pth}, timeout=1200, expect_violation=True)
         accepted = r.ok and not r.postcondition_failed and not r.violated
-        if name == "orig" and not accepted:
-            c.drift("binding self-test skipped: the recorded self-test trace is not accepted by Trace_PathHeader (%s)" % ",".join(r.violated or ["postcondition"]))
-            c.cov["binding_selftest"] = "skipped (trace of the current code rejected)"
-            return
-        if name != "orig" and accepted:
+        if accepted:
             c.fail_tool("binding self-test: trace variant '%s' was accepted - the trace spec does not constrain the code" % name)
-    c.cov["binding_selftest"] = "orig accepted; corrupt-field and drop-event rejected"
+    c.cov["binding_selftest"] = "recorded trace accepted; corrupt-field and drop-event variants rejected"
 
 
 def want_key(key):
@@ -219,7 +215,6 @@ def run(c):
         "raw bytes are written and re-read by the harness independently of sciparse's encoder",
         "TLC 1.8.0, CommunityModules Json/IOUtils/Bitwise",
     ]
-    binding_selftest(c, binp)
     c.cov["rule"] = ("cell = (segment-length table, CurrINF, CurrHF, cons-dir vector, alerts) x 3 calls x 4 validator scripts; "
                      "non-trivial cell = pointers not both at 0; journey: non-trivial = more than one segment or tampered; "
                      "trace runs: non-trivial = any deviation from a plain forward walk")
@@ -318,6 +313,7 @@ def run(c):
         c.drift("recorded trace not accepted by Trace_PathHeader: %s" % " ".join(um)[:600])
     else:
         c.cov["traces_validated_against_impl"] = res["runs"]
+        binding_selftest(c, ev)
     for pv in res["pv"]:
         key = pv["key"]
         if key.startswith("Drift:"):
